@@ -128,6 +128,12 @@ int32_t jls_track_repair_pointers(struct jls_core_track_s * track) {
             if (jls_core_rd_chunk(core)) {
                 descend = true;
             } else {
+                if (summary_chunk.offset && (summary_chunk.hdr.item_next != (uint64_t) core->chunk_cur.offset)) {
+                    // The writer stopped after this summary was written but before the
+                    // previous summary was linked to it: complete the summary list.
+                    summary_chunk.hdr.item_next = core->chunk_cur.offset;
+                    jls_core_update_chunk_header(core, &summary_chunk);
+                }
                 index_chunk = index_chunk_next;
                 summary_chunk = core->chunk_cur;
                 offset = index_chunk.hdr.item_next;  // next index
